@@ -274,6 +274,7 @@ func collKindOf[K any](name string, cfg CollCfg, conv collConv[K], mk func() art
 			}
 			return out
 		},
+		Deepen:   func(r *rng.R, a K) K { return conv.to(conv.from(a) + string(collWord(r, 1+r.Intn(2)))) },
 		HasRange: false, // carved out of C03
 		EmptyEnd: func(K) bool { return false },
 		SliceKey: slice,
@@ -334,6 +335,15 @@ func collKindOf[K any](name string, cfg CollCfg, conv collConv[K], mk func() art
 			w2 := append([]rune{}, w...)
 			w2[len(w2)-1] = 'q'
 			out = append(out, conv.to(string(w2)))
+		}
+		return out
+	}
+	k.VariantFamily = func(r *rng.R, pairs int) []K {
+		stem := []string{"a", "b", "ab", "role"}[r.Intn(4)]
+		var out []K
+		for i := 0; i < pairs; i++ {
+			suffix := fmt.Sprintf("%03x", i)
+			out = append(out, conv.to(stem+suffix), conv.to(strings.ToUpper(stem)+suffix))
 		}
 		return out
 	}
